@@ -59,7 +59,17 @@ func c05Gen(seed uint64, i int) *c05Case {
 		g := newProcGen(rng)
 		g.strVar = append([]string{}, caps...)
 		var ss []proc.Stmt
-		switch rng.Intn(3) {
+		switch rng.Intn(5) {
+		case 3:
+			// reads a name it never assigned before: must be the empty string for every match and every
+			// evaluation, whatever earlier matches or earlier `with` items did
+			ss = []proc.Stmt{
+				proc.SSet{Name: "acc", X: proc.EBin{Op: "+", L: proc.EVar{Name: "acc"}, R: proc.EVar{Name: "match"}}},
+				proc.SReturn{X: proc.EBin{Op: "+", L: proc.EVar{Name: "acc"}, R: proc.EStr{V: "."}}}}
+		case 4:
+			// reads a capture that only some matches bind
+			c := caps[rng.Intn(len(caps))]
+			ss = []proc.Stmt{proc.SReturn{X: proc.EBin{Op: "+", L: proc.EBin{Op: "+", L: proc.EStr{V: "{"}, R: proc.EVar{Name: c}}, R: proc.EStr{V: "}"}}}}
 		case 0:
 			t := []proc.Type{proc.TStr, proc.TNum}[rng.Intn(2)]
 			ss = []proc.Stmt{proc.SReturn{X: g.typed(t, 2)}}
@@ -99,6 +109,13 @@ func c05Gen(seed uint64, i int) *c05Case {
 			} else {
 				cs.with = append(cs.with, gen.WithItem{Kind: "var", S: "value"})
 			}
+		}
+	}
+	// every transform is used, some of them twice
+	for name := range cs.trs {
+		cs.with = append(cs.with, gen.WithItem{Kind: "var", S: name})
+		if rng.Bool() {
+			cs.with = append(cs.with, gen.WithItem{Kind: "str", S: "/"}, gen.WithItem{Kind: "var", S: name})
 		}
 	}
 	cs.find = gen.RenderProgram(p)
